@@ -2,14 +2,24 @@ use crate::report::{Ctx, Outcome};
 
 pub mod c01;
 pub mod c05;
+pub mod c07;
 pub mod c12;
 pub mod c14;
+pub mod c15;
+pub mod c18;
+pub mod c19;
+pub mod c20;
 
 pub fn dispatch(ctx: &Ctx) -> Option<Outcome> {
     Some(match ctx.id.as_str() {
         "C01" => c01::run(ctx),
         "C05" => c05::run(ctx),
+        "C07" => c07::run(ctx),
         "C12" => c12::run(ctx),
+        "C15" => c15::run(ctx),
+        "C18" => c18::run(ctx),
+        "C19" => c19::run(ctx),
+        "C20" => c20::run(ctx),
         "C14" => c14::run(ctx),
         _ => return None,
     })
